@@ -41,7 +41,7 @@ type Node struct {
 	// first time it executes in the session
 	Pred  int  `json:"pred,omitempty"`
 	Rerun bool `json:"rerun,omitempty"`
-	// a lambda with options (ty lambdaA / lambdaB): the paradigm(s) it implements natively
+	// a lambda with options (isLambdaTy): the paradigm(s) it implements natively
 	// (0 Invoke, 1 Stream, 2 Collect, 3 Transform, 4 Invoke+Transform, 5 Stream+Collect)
 	Nat int `json:"nat,omitempty"`
 	// Back: the relay that closes the loop of a looping graph (Graph.Loop): the last node of
@@ -553,7 +553,7 @@ func baitTypes(F []Graph) []int {
 	seen := map[int]bool{}
 	for _, g := range F {
 		for _, nd := range g.Nodes {
-			if nd.Kind == "comp" && nd.Ty != tyNone {
+			if nd.Kind == "comp" && nd.Ty != tyNone && !isIfaceTy(nd.Ty) {
 				seen[nd.Ty] = true
 			}
 		}
